@@ -836,6 +836,13 @@ class Processor:
                             break
                 elif parentref in parent:
                     del parent[parentref]
+
+                    # ruamel.yaml does not re-expose the value a Hash inherits
+                    # through a YAML Merge Key once its override is deleted
+                    for (_, merge_node) in getattr(parent, "merge", []):
+                        if parentref in merge_node:
+                            parent.update_key_value(parentref)
+                            break
             elif isinstance(parent, (CommentedSeq, list)):
                 if len(parent) > parentref:
                     del parent[parentref]
